@@ -161,6 +161,8 @@ def run(ck, ix, tier):
              "ratio dim2/dim1 common to all dimensions, None when the dimension sets differ", "_get_dimensionality_ratio no longer computes the common exponent ratio dim2/dim1")
     from .C16 import inplace_primitives_rule
     inplace_primitives_rule(ck, ix)  # only in-place forms may rescale/rebind their target
+    from .. import memo as _memo
+    _memo.rule_base_units_cache(ck, ix)  # to_base_units/ito_base_units read the base-units memo
     return EXPLANATION
 
 
